@@ -277,9 +277,19 @@ def validate(seed, tier):
     for op in ('add_mps', 'add_mpo', 'multiply_mpo', 'apply_operator'):
         for L in (1, 2, 3):
             inp = concrete.random_arith_input(rng, op, L)
-            f = concrete.CHECKS['arith'](inp)
-            if f:
-                raise runner.HarnessError(f'concrete arithmetic check fails on the unchanged tree: {op} L={L}: {f}')
+            runner.concrete_check('arith', inp)
+            n += 1
+            # dtype mechanics are erased by the symbolic encoding (object arrays); this sweep at least pushes real/complex
+            # operand mixes and the sparse matrix form through the real code (sampling, reported as such)
+            for real in ((True, False), (False, True), (True, True)):
+                for _ in range(12):
+                    runner.concrete_check('arith', concrete.random_arith_input(rng, op, L, real=real))
+                    n += 1
+    for L in (1, 2, 3, 4):
+        for _ in range(3):
+            inp = concrete.random_arith_input(rng, 'apply_operator', L, Dmax=3)
+            inp['op'] = 'dense_forms'
+            runner.concrete_check('arith', inp)
             n += 1
     # shimmed path vs plain NumPy on the real code
     qd = np.zeros(2, dtype=int)
